@@ -7,6 +7,13 @@ import sys
 HERE = os.path.dirname(os.path.dirname(os.path.abspath(__file__)))
 
 CHECKS = {
+    "C19": dict(
+        category="exploration",
+        technique="stateful model-based testing (Hypothesis RuleBasedStateMachine, harness-owned clock via os.utime) + complete enumeration of truncation lengths of cache entries + child-process tier",
+        text="Histories of edit/touch/run (all cache switches)/corrupt-entry operations over awkwardly named scripts and code strings in exec/single/eval mode, in process and through real xonsh child processes and imphooks; each run's stdout, exception, namespace effects and exit status must equal the uncached run of the current source; foreign-version, truncated (every length, enumerated completely for several entries), non-code, garbage, unreadable and directory entries must never be executed or fatal and must be rebuilt; cache file names must be injective over confusable path/text pairs. Four recorded defects.",
+        note="Trusted: the uncached run as reference; mtime relations are set exactly with os.utime (no sleeping); child processes call xonsh.main.main() with PYTHONPATH=/repo and the rebuilt tables preloaded; chmod-000 corruption needs CAP_DAC_OVERRIDE dropped in the worker.",
+        design="2/C19",
+    ),
     "C20": dict(
         category="exploration",
         technique="stateful model-based testing: exhaustive enumeration of all job-command histories up to length 4/5 over a 20-operation alphabet, Hypothesis RuleBasedStateMachine with two lock-stepped actors, and a real-process family compared with /proc",
@@ -42,6 +49,13 @@ CHECKS = {
         note="Trusted: the generator's own escaper (every literal is checked with ast.literal_eval before use); the model of documented expansions; lines that are also Python assignment/tuple statements are C02/C03's domain and skipped (counted).",
         design="2/C04",
     ),
+    "C06": dict(
+        category="exploration",
+        technique="property-based testing over payload x writer behaviour x pipeline x capture kind x configuration with randomized, seeded schedule perturbation through guarded hook points in xonsh's reader/proxy/pipeline threads; round-trip oracle against the bytes the writer was told to write",
+        text="Payloads built from segments (UTF-8 text, LF/CRLF/CR, escape sequences, hidden spans, binary) with sizes straddling the 1024-byte reader chunk, 4096 and multiples of the 64 KiB pipe buffer are written by an external helper or alias with generated chunking, delays, linger and exit code through pipelines of 1-3 external/alias stages and captured with $(), !().out, iteration, .raw_out, .rtn and @$() under $THREAD_SUBPROCS on/off; with XONSH_XONSH_VERIF=1 each case runs under several seeded delay plans at the schedule points. raw_out must equal the payload byte for byte, text views must match under one consistent newline reading with every text segment intact, rtn must be the last stage's code, nothing may be echoed to the shell's own stdout (fd 1 captured by the harness). A failure is reported only if it reproduces in re-runs; unreproduced schedule anomalies are counted as inconclusive. One recorded defect.",
+        note="Trusted: the C helpers (vemit/vcat) write exactly the payload file; schedules are sampled by delay injection, not enumerated - the OS still owns the real interleaving; alternate-screen switches are excluded (documented pass-through).",
+        design="2/C06",
+    ),
     "C08": dict(
         category="exploration",
         technique="stateful model-based testing (Hypothesis RuleBasedStateMachine) of file-system/$PATH mutation histories against a reference execvp search cross-checked with dash `command -v`",
@@ -55,6 +69,13 @@ CHECKS = {
         text="Histories of directory commands with valid, out-of-range, malformed, missing, non-directory and permission-denied targets over a tree with symlinks, issued through the real aliases and through Execer.exec; after every step $PWD/getcwd/$OLDPWD/DIRSTACK are compared with the model; failed operations must change nothing. Three recorded defects are tolerated only in their exact shape.",
         note="Trusted: the reference model (bash manual + docstrings); ambiguous forms (dir named '-' or '+1', logical vs physical '..') accept every documented reading; permission failures are made real by dropping CAP_DAC_OVERRIDE in the worker.",
         design="2/C16",
+    ),
+    "C10": dict(
+        category="exploration",
+        technique="property-based round-trip testing of every registered variable's validate/convert/detype triple + stateful model-based testing (Hypothesis RuleBasedStateMachine) of the launch view with real child processes sampled",
+        text="Part A: for each of the 158 registered variables, the *PATH / *DIRS patterns and unregistered names, generated valid typed values are set, read, detyped and converted back in a fresh Env (nested-xonsh view). Part B: histories of set/delete/in-place mutation through fresh and held references/swap/alias overlay/per-command prefix/DELETE_VAR mask/detype-at-arbitrary-points/register-deregister/second thread are run against one Env and a dict model; at every launch the mapping built the way SubprocSpec.prep_env_subproc builds it (and, sampled, what a real child `venv0` receives, and os.environ under $UPDATE_OS_ENVIRON) must equal the reference detype of the model at launch time. Nine recorded defects.",
+        note="Trusted: the per-type reference string forms; values the string format cannot carry (lone '' entry, entries containing the separator, compiled regexes) are out of domain; shapes already recorded under C11 are skipped and counted.",
+        design="2/C10",
     ),
     "C11": dict(
         category="exploration",
@@ -113,9 +134,9 @@ def main():
         "setup_cmd": "sh /verif/setup.sh",
         "hooks": {
             "guard": "XONSH_XONSH_VERIF",
-            "enable": "environment variable XONSH_XONSH_VERIF=1 set by run.py for the checks that use schedule points (none yet); xonsh is imported from /repo's working tree, nothing is built",
+            "enable": "environment variable XONSH_XONSH_VERIF=1 set by run.py (before xonsh is imported) for the checks that use schedule points (C06); xonsh is imported from /repo's working tree, nothing is built",
             "baseline_off_cmd": "cd /repo && env -u XONSH_XONSH_VERIF /venv/bin/python -m pytest -ra -q -p no:cacheprovider --timeout=900 --continue-on-collection-errors",
-            "source_commits": [],
+            "source_commits": ["eca866d", "17ce52d"],
             "add_only": True,
         },
         "engines": [
